@@ -514,6 +514,100 @@ def run_fuzz(bins, meta, tier, seed, workdir, known_path, seconds, nprocs, maxle
     return fails, {"procs": nprocs, "seconds": seconds, "executions": execs, "corpus_files": ncorpus}
 
 
+def fill_env(workdir, tier, known_path, fill):
+    e = env_for(workdir, tier, known_path)
+    e["ASAN_OPTIONS"] = e["ASAN_OPTIONS"] + ":malloc_fill_byte=%d:max_malloc_fill_size=1048576" % fill
+    e["VERIF_STACK_FILL"] = str(fill)
+    return e
+
+
+def read_trace(path):
+    out = []
+    try:
+        raw = open(path, "rb").read()
+    except OSError:
+        return out
+    off = 0
+    while off + 4 <= len(raw):
+        n = int.from_bytes(raw[off:off + 4], "little")
+        if off + 4 + n + 8 > len(raw):
+            break
+        out.append((raw[off + 4:off + 4 + n], raw[off + 4 + n:off + 12 + n]))
+        off += 12 + n
+    return out
+
+
+def replay_digest(bins, path, workdir, tier, known_path, fill):
+    r = subprocess.run([bins["rand"], "--replay", path, "--known", known_path, "--tier", tier], stdout=subprocess.PIPE, stderr=subprocess.STDOUT,
+                       env=fill_env(workdir, tier, known_path, fill), errors="replace", timeout=300)
+    m = re.search(r"REPLAY-OK digest=([0-9a-f]+)", r.stdout)
+    if m:
+        return "ok:" + m.group(1), r.stdout
+    m = re.search(r"REPLAY-FAIL(?:-KNOWN)? sig=(\S+)", r.stdout)
+    if m:
+        return "fail:" + m.group(1), r.stdout
+    return "crash:%d" % r.returncode, r.stdout
+
+
+def uninit_diff_confirm(bins, path, workdir, tier, known_path):
+    """the result of one input must not depend on what uninitialised heap/stack memory happens to contain"""
+    a1, oa = replay_digest(bins, path, workdir, tier, known_path, 0x00)
+    a2, _ = replay_digest(bins, path, workdir, tier, known_path, 0x00)
+    b1, ob = replay_digest(bins, path, workdir, tier, known_path, 0xff)
+    b2, _ = replay_digest(bins, path, workdir, tier, known_path, 0xff)
+    if a1 == a2 and b1 == b2 and a1 != b1:
+        la, lb = oa.splitlines(), ob.splitlines()
+        diff = ""
+        for x, y in zip(la, lb):
+            if x != y and not x.startswith("REPLAY"):
+                diff = "fill 0x00: %s | fill 0xff: %s" % (x[:400], y[:400])
+                break
+        m = re.search(r"(?:accepted as|->) ([A-Za-z0-9_/<>:]+)", oa)
+        return True, (m.group(1).split("/")[-1] if m else "?"), diff or ("digest %s vs %s" % (a1, b1))
+    return False, None, ""
+
+
+def uninit_diff_stage(bins, meta, tier, seed, workdir, known_path, cfg):
+    """run the same deterministic case stream twice, with all fresh heap memory and the stack pre-filled with 0x00 resp. 0xff"""
+    nworkers = int(cfg.get("workers", 4))
+    cases = int(cfg.get("cases_per_worker", 5000))
+    viols, compared = [], 0
+    procs = []
+    for fill, tag in ((0x00, "A"), (0xff, "B")):
+        d = os.path.join(workdir, "uninit" + tag)
+        os.makedirs(d, exist_ok=True)
+        for w in range(nworkers):
+            cmd = [bins["rand"], "--run", "--worker", str(w), "--workers", str(nworkers), "--work", d, "--tier", tier, "--known", known_path,
+                   "--seed", str(seed + 7777), "--cases", str(cases), "--max-seconds", str(cfg.get("max_seconds", 120)),
+                   "--trace", os.path.join(d, "trace.%d" % w)]
+            cdir = os.path.join(VERIF, "corpus", bins["pid"])
+            if os.path.isdir(cdir):
+                cmd += ["--corpus", cdir]
+            if cfg.get("maxlen"):
+                cmd += ["--maxlen", str(cfg["maxlen"])]
+            procs.append(subprocess.Popen(cmd, stdout=subprocess.DEVNULL, stderr=subprocess.DEVNULL, env=fill_env(d, tier, known_path, fill)))
+    for p in procs:
+        try:
+            p.wait(timeout=int(cfg.get("max_seconds", 120)) + 120)
+        except subprocess.TimeoutExpired:
+            p.kill()
+    for w in range(nworkers):
+        ta = read_trace(os.path.join(workdir, "uninitA", "trace.%d" % w))
+        tb = read_trace(os.path.join(workdir, "uninitB", "trace.%d" % w))
+        for i in range(min(len(ta), len(tb))):
+            if ta[i][0] != tb[i][0]:
+                break  # the streams diverged (an earlier result difference changed the mutation pool)
+            compared += 1
+            if ta[i][1] != tb[i][1]:
+                cand = os.path.join(workdir, "uninit-cand.%d.bin" % w)
+                open(cand, "wb").write(ta[i][0])
+                ok, where, detail = uninit_diff_confirm(bins, cand, workdir, tier, known_path)
+                if ok:
+                    viols.append((cand, "%s:result-depends-on-uninitialised-memory:%s" % (bins["pid"], where), detail))
+                break
+    return viols, compared
+
+
 def check(pid, tier, seed):
     t0 = time.time()
     meta = load_meta(pid)
@@ -603,9 +697,26 @@ def check(pid, tier, seed):
                                  int(t.get("fuzz_maxlen", maxlen or meta.get("fuzz_maxlen", 4096))))
         failures += fl
 
-    # ---- confirm failures: replay three times, classify ------------------------------------------
+    # ---- stage 5: uninitialised-memory differential --------------------------------------------------
     violations = []
     seen_sigs = set()
+    uninit_info = None
+    ud = t.get("uninit_diff")
+    if ud and not failures and bins["cfg"] == "san":
+        uv, compared = uninit_diff_stage(bins, meta, tier, seed, workdir, known_path, ud)
+        uninit_info = {"cases_compared": compared, "fills": ["0x00", "0xff"]}
+        for cand, sig, detail in uv:
+            if sig_known(sig, known_sigs):
+                known_crashes[sig] = known_crashes.get(sig, 0) + 1
+                continue
+            if sig in seen_sigs:
+                continue
+            seen_sigs.add(sig)
+            dst = os.path.join(workdir, "violation-%d.bin" % len(violations))
+            shutil.copy(cand, dst)
+            violations.append({"signature": sig, "message": detail, "replay": dst, "origin": "uninit-differential"})
+
+    # ---- confirm failures: replay three times, classify ------------------------------------------
     for n, f in enumerate(failures):
         if f.origin == "timeout":
             notes.append("inconclusive: %s" % f.msg)
@@ -675,6 +786,8 @@ def check(pid, tier, seed):
         coverage["exhaustive_block"] = {"cases": enum_cases, "what": meta.get("enumerate_what", "")}
     if fuzz_info:
         coverage["libfuzzer"] = fuzz_info
+    if uninit_info:
+        coverage["uninitialised_memory_differential"] = uninit_info
     if violations:
         coverage["violations_found"] = violations
     ev = {
@@ -754,6 +867,11 @@ def main():
         st, sig, msg, out = replay_once(bins, a.replay, workdir, a.tier, known_path, timeout=600)
         sys.stdout.write(out)
         print("replay status=%s signature=%s" % (st, sig))
+        if st == "ok" and bins["cfg"] == "san" and any("uninit_diff" in load_meta(pid).get(tt, {}) for tt in ("quick", "thorough")):
+            ok, where, detail = uninit_diff_confirm(bins, a.replay, workdir, a.tier, known_path)
+            if ok:
+                print("replay status=fail signature=%s:result-depends-on-uninitialised-memory:%s\n%s" % (pid, where, detail))
+                return 1
         return 0 if st == "ok" else 1
     return check(pid, a.tier, seed)
 
